@@ -38,7 +38,8 @@ REQUIRED = ["check_order_irrelevant_for_accept", "valid_only_if", "key_is_from_t
             "revocation_store_fault_is_never_valid_vp", "fact_revocation_store_read_errors",
             "fact_algorithm_fits_key_table", "fact_status_list_constants",
             "issued_credential_passes_its_validator", "issuer_refuses_malformed_authorization_credential", "api_vp_valid_only_if",
-            "ambObj_iff", "amb_order_irrelevant", "topVariant_iff", "caseVariantMember_false_iff"]
+            "ambObj_iff", "amb_order_irrelevant", "topVariant_iff", "caseVariantMember_false_iff",
+            "entryValidOf_iff", "accepted_credential_has_well_formed_status_entries", "fact_status_entry_validate_sequence"]
 
 SCAN_KINDS = ("time", "flags", "trust", "revoked")
 PROOF_OPTS = ("shape", "typ", "vm", "purpose", "created", "expires", "domain", "challenge", "nonce")
@@ -461,6 +462,36 @@ def run(ctx):
                               "foreign-subject-in-vp.jsonl", replay_text(i))
     ctx.oblige("oracle:signer-is-subject-of-EVERY-carried-credential(impl)", foreign_accepted == 0 and (n_subj > 0 or bool(ctx.replay)),
                f"{foreign_accepted} accepted of {n_subj} mixed-subject presentations")
+
+    # deepening round: StatusList2021Entry.Validate — the implementation's own verdict (entryValid, measured) against the rule recomputed
+    # from the entry's members; and an accepted credential never carries a malformed entry
+    se_bad = n_se = 0
+
+    def entries(d):
+        for e_ in (d or {}).get("statuses") or []:
+            yield e_
+        for c_ in (d or {}).get("vcs") or []:
+            for e_ in c_.get("statuses") or []:
+                yield e_
+    for i, op in enumerate(ops):
+        if op.get("op") not in ("vc", "vp"):
+            continue
+        for e_ in entries(op.get("doc")):
+            if e_.get("typ") != "StatusList2021Entry" or "urlOK" not in e_:
+                continue
+            n_se += 1
+            want = bool(e_.get("unmarshals")) and e_.get("entryId") != e_.get("listCred") and e_.get("purpose") != "" and e_.get("index") is not None and bool(e_.get("urlOK"))
+            if want != bool(e_.get("entryValid")):
+                se_bad += 1
+                ctx.violation("C01:status-entry-validate:" + ("accepts-malformed-entry" if e_.get("entryValid") else "refuses-well-formed-entry"),
+                              f"{op.get('label')}: StatusList2021Entry.Validate says {'ok' if e_.get('entryValid') else 'invalid'} for {json.dumps(e_)}",
+                              "status-entry-validate.jsonl", replay_text(i))
+            elif not want and op.get("op") == "vc" and impl[i].startswith("ok"):
+                se_bad += 1
+                ctx.violation("C01:credential-with-malformed-status-entry-reported-valid", f"{op.get('label')}: reported valid with status entry {json.dumps(e_)}",
+                              "malformed-status-entry.jsonl", replay_text(i))
+    ctx.oblige("oracle:status-entry-validation(impl)", se_bad == 0, f"{se_bad} wrong of {n_se} entries")
+    ctx.cov["status_entries_checked"] = n_se
 
     # deepening round: caseVariantMember as a function — independent recomputation from the document text (simple case folding over the
     # generator's alphabet: ASCII letters, U+017F long s, U+212A Kelvin sign)
